@@ -76,6 +76,7 @@ type GenOpts struct {
 	ActionTime         int
 	VaryMinCount       bool // table minimum player count 2..4 instead of always 2
 	ZeroActionTime     bool // action time 0 (ActionTime 0 above means 'default')
+	MTTPastDuration    bool // half of the mtt tables are already past their maximum duration (which only ends ct / cash tables)
 }
 
 // GenTable derives a configuration from the PRNG.
@@ -164,6 +165,9 @@ func GenTable(r *rand.Rand, o GenOpts) TableCfg {
 			chips = unit*50 + r.Int63n(unit*150)
 		}
 		c.Players = append(c.Players, PlayerCfg{ID: fmt.Sprintf("p%d", i), Seat: perm[i], Chips: chips})
+	}
+	if o.MTTPastDuration && c.Mode == "mtt" && r.Intn(2) == 0 {
+		c.MaxDuration = -1
 	}
 	if o.VaryMinCount {
 		c.MinPlayers = []int{2, 2, 3, 4}[r.Intn(4)]
